@@ -43,6 +43,8 @@ def default_case(**kw):
         "close_at": None,      # audio transport reports is_closing() once this many datagrams were sent
         "stop_after_lap": None,  # stop() is called during this lap (0-based)
         "requests": [],        # [at_read_call or None (= after the stream ended), hex datagram]
+        "order": "library",    # "library": StreamClient constructed around a default context, receiver properties
+                               # applied afterwards by the real code; "preset": format set before construction
         "boundary": False,     # True: probe of a limit outside the property's domain (model tie only, no oracle)
         "via_file": False,     # True: the source is produced by the normal path - a WAV file on disk opened with
                                # open_source() for the format get_audio_properties() derives from the receiver's
@@ -143,19 +145,33 @@ async def drive(case, prepared=None):
         src_bytes = bytes(fsrc.samples)
     assert isinstance(fsrc, FileSource) and fsrc.sample_size == ss and fsrc.channels == ch
 
-    ctx = StreamContext()
-    ctx.sample_rate = case["sample_rate"]
-    ctx.channels = ch
-    ctx.bytes_per_channel = ss
+    rtsp = FakeRtsp(case["ssrc"])
+    props = {"sr": str(case["sample_rate"]), "ch": str(ch), "ss": str(8 * ss)}
+    if case.get("order", "library") == "library":
+        # The library's own order (RaopPlaybackManager.setup, RaopStream.stream_file, StreamClient.send_audio):
+        # a FRESH StreamContext with the default format, the protocol object and the StreamClient are constructed
+        # around it, only then are the receiver's properties applied through the real code path
+        # (initialize() -> _update_output_properties), and send_audio() resets the context before streaming.
+        ctx = StreamContext()
+        proto = AirPlayV1(ctx, rtsp)
+        client = sc.StreamClient(rtsp, ctx, proto, None)
+        client._update_output_properties(props)
+        ctx.reset()
+    else:
+        # second variant: format already on the context when the client is constructed
+        ctx = StreamContext()
+        ctx.sample_rate = case["sample_rate"]
+        ctx.channels = ch
+        ctx.bytes_per_channel = ss
+        proto = AirPlayV1(ctx, rtsp)
+        client = sc.StreamClient(rtsp, ctx, proto, None)
+    assert (ctx.sample_rate, ctx.channels, ctx.bytes_per_channel) == (case["sample_rate"], ch, ss)
+    # what reset() draws from randrange()/the wall clock, and the latency under test
     ctx.latency = case["latency"]
     ctx.rtpseq = case["seq0"]
     ctx.start_ts = case["start_ts"]
     ctx.head_ts = case["start_ts"]
     ctx.padding_sent = 0
-
-    rtsp = FakeRtsp(case["ssrc"])
-    proto = AirPlayV1(ctx, rtsp)
-    client = sc.StreamClient(rtsp, ctx, proto, None)
     audio = AudioTransport(case["close_at"])
     control_t = ControlTransport()
     control = sc.ControlClient(ctx, client._packet_backlog)
@@ -315,6 +331,17 @@ def oracle(case, ob):
             if stream != full[:len(stream)]:
                 errs.append(("C16:payload:not-conserved", "datagrams sent before the stream ended early are not a "
                                                           "prefix of the source's frames"))
+    # the context the sync packets are built from: one sequence number and 352 frames per datagram, and the
+    # silence accounted for covers the latency
+    if complete_expected and not ob["outcome"].startswith("Raised:") and not errs:
+        fseq, fhead, fpad, _ = ob["final"]
+        n = len(sent)
+        npad = -(-case["latency"] // FPP)
+        if fseq != (case["seq0"] + n) % SEQMOD or fhead != case["start_ts"] + FPP * n or fpad != FPP * npad:
+            errs.append(("C16:context:bookkeeping",
+                         "after %d datagrams (%d of silence) the context holds rtpseq=%d head_ts-start=%d padding_sent=%d, "
+                         "expected %d, %d, %d" % (n, npad, fseq, fhead - case["start_ts"], fpad,
+                                                  (case["seq0"] + n) % SEQMOD, FPP * n, FPP * npad)))
     # retransmission
     for r in ob["reqs"]:
         data = bytes.fromhex(r["data"])
@@ -475,6 +502,14 @@ def gen_cases(ctx):
             cases.append(("boundary", default_case(channels=ch, ssize=ss, nframes=nfr, seq0=seq0,
                                                    latency=rng.choice(lat_small), pa=rng.randrange(1, 250),
                                                    pb=rng.randrange(251))))
+    for (ch, ss) in FORMATS:
+        for nfr in [0, 1, 353, 880]:
+            if (ch * ss) % 2 and nfr % 2:
+                nfr += 1
+            cases.append(("preset-order", default_case(channels=ch, ssize=ss, nframes=nfr, order="preset",
+                                                       seq0=(SEQMOD - 2 + rng.randrange(4)) % SEQMOD,
+                                                       latency=rng.choice(lat_small), pa=rng.randrange(1, 250),
+                                                       pb=rng.randrange(251))))
     for d in range(-3, 4):
         cases.append(("wrap", default_case(seq0=(SEQMOD + d) % SEQMOD, nframes=880 + d, latency=704)))
     # C. schedules: the source answers late, so the sender compensates with extra packets
